@@ -194,7 +194,10 @@ type c02Line struct {
 	S   Q   `json:"s"`
 	F   int `json:"form,omitempty"` // K=1: which well-formed shape carries the number
 	Pad int `json:"pad,omitempty"`  // K=1: bytes of padding after the number; K=0: the probe is preceded by this many filler bytes
+	T   int `json:"term,omitempty"` // line terminator: 0 CRLF, 1 bare LF, 2 CRLF + blank CRLF line, 3 LF + blank LF line, 4 CR CR LF
 }
+
+var c02Terms = []string{"\r\n", "\n", "\r\n\r\n", "\n\n", "\r\r\n"}
 
 func c02Pad(n int) string {
 	if n <= 0 {
@@ -211,14 +214,14 @@ var c02Forms = []string{
 	"@a :vsrc!v@v notice &x :%s",
 }
 
-var probeParams = []string{"", "x", "x", "me", "me", "#c", "#c", "#c", "#d", "other", ":", ":me", "1", "LS", "ACK", "NAK", "sasl", "+", "*", "@me", "+o", "+o", "-k", "+l", "+k", "+v-o", "H", "H*", "me!u@h", "=", "\x01PING\x01", "\x01VERSION\x01", "a b"}
+var probeParams = []string{"", "x", "x", "me", "me", "#c", "#c", "#c", "#d", "#d", "other", "solo", "solo", ":", ":me", "1", "LS", "ACK", "NAK", "sasl", "+", "*", "@me", "+o", "+o", "-k", "+l", "+k", "+v-o", "H", "H*", "me!u@h", "=", "\x01PING\x01", "\x01VERSION\x01", "a b"}
 
 // c02Warmup puts a tracked client on two channels with some other users so that hostile lines reach
 // the state handlers' deeper paths.
 var c02Warmup = []string{
 	":irc.server 001 me :Welcome me!ident@host",
 	":me!ident@host JOIN #c",
-	":irc.server 353 me = #c :me @x +other",
+	":irc.server 353 me = #c :me @x +other solo",
 	":irc.server 366 me #c :End",
 	":me!ident@host JOIN :#d",
 	":irc.server 353 me = #d :me x",
@@ -229,7 +232,32 @@ func genBuiltinProbe(t *rapid.T) string {
 	verbs := []string{"001", "433", "NICK", "PING", "CAP", "410", "AUTHENTICATE", "903", "904", "908", "JOIN", "KICK", "MODE", "PART", "QUIT", "TOPIC", "311", "324", "332", "352", "353", "671", "PRIVMSG", "NOTICE", "REGISTER", "CONNECTED", "DISCONNECTED", "ERROR",
 		"JOIN", "JOIN", "KICK", "MODE", "MODE", "PART", "QUIT", "NICK", "NICK", "TOPIC", "311", "324", "332", "352", "352", "353", "353", "671"}
 	var b strings.Builder
-	switch rapid.IntRange(0, 6).Draw(t, "probe_src") {
+	if rapid.IntRange(0, 9).Draw(t, "cap_shape") == 0 {
+		// capability lists with odd tokens (IRCv3.2 values, empty names, removals)
+		toks := genUnits(t, "cap_tokens", []string{"a ", "b ", "sasl ", "=draft ", "a=b ", "= ", "- ", "-a ", "multi-prefix ", "=x=y "}, 1, 4)
+		return ":irc.server CAP " + rapid.SampledFrom([]string{"*", "me"}).Draw(t, "cap_target") + " " + rapid.SampledFrom([]string{"LS", "ACK", "NAK", "LS *", "NEW", "DEL"}).Draw(t, "cap_sub") + " :" + strings.TrimSpace(toks)
+	}
+	if rapid.IntRange(0, 4).Draw(t, "membership_shape") == 0 {
+		// well-formed membership events about the wrong / absent / half-known parties
+		nk := func(l string) string { return rapid.SampledFrom([]string{"me", "x", "other", "solo", "nobody", ""}).Draw(t, l) }
+		ch := func() string { return rapid.SampledFrom([]string{"#c", "#d", "#zz", ""}).Draw(t, "mchan") }
+		switch rapid.IntRange(0, 6).Draw(t, "mshape") {
+		case 0:
+			return ":" + nk("mnick") + "!u@h PART " + ch()
+		case 1:
+			return ":x!u@h KICK " + ch() + " " + nk("mnick") + " :r"
+		case 2:
+			return ":" + nk("mnick") + "!u@h JOIN " + ch()
+		case 3:
+			return ":x!u@h MODE " + ch() + " " + rapid.SampledFrom([]string{"+o", "-o", "+v", "+ov", "+k"}).Draw(t, "mmode") + " " + nk("mnick") + " " + nk("mnick2")
+		case 4:
+			return ":" + nk("mnick") + "!u@h NICK :" + nk("mnick2")
+		case 5:
+			return ":" + nk("mnick") + "!u@h QUIT :bye"
+		}
+		return ":irc.server 353 me = " + ch() + " :" + nk("mnick") + " @" + nk("mnick2")
+	}
+	switch rapid.IntRange(0, 7).Draw(t, "probe_src") {
 	case 0:
 		b.WriteString(":me!ident@host ")
 	case 1:
@@ -242,6 +270,8 @@ func genBuiltinProbe(t *rapid.T) string {
 		b.WriteString(":x ")
 	case 5:
 		b.WriteString(":nobody!n@h ")
+	case 6:
+		b.WriteString(":solo!s@h ")
 	}
 	b.WriteString(rapid.SampledFrom(verbs).Draw(t, "probe_verb"))
 	n := rapid.IntRange(0, 8).Draw(t, "probe_nparams")
@@ -291,6 +321,9 @@ func genC02Session(t *rapid.T) *c02Session {
 	}
 	seq++
 	s.Lines = append(s.Lines, c02Line{K: 1, S: Q(fmt.Sprintf("%d", seq))})
+	for i := range s.Lines {
+		s.Lines[i].T = rapid.SampledFrom([]int{0, 0, 0, 0, 1, 1, 2, 3, 4}).Draw(t, "term")
+	}
 	return s
 }
 
@@ -336,10 +369,11 @@ func runC02Session(s *c02Session) *Violation {
 				wire = "ZZLONG " + strings.Repeat("f", ln.Pad) + wire
 			}
 		}
+		term := c02Terms[ln.T%len(c02Terms)]
 		if s.Burst {
-			all.WriteString(wire + "\r\n")
+			all.WriteString(wire + term)
 		} else {
-			c.SendLine(wire)
+			c.Send(wire + term)
 		}
 	}
 	if s.Burst {
